@@ -52,7 +52,7 @@ def cases(tier, seed):
         recs.append((['iso', ['hub', ['er', n, .5, False, int(rs.randint(1 << 30))], 1], 1], False))
         recs.append((['named', 'lollipop', int(rs.randint(3, 6)), int(rs.randint(1, 4))], False))
     for i, (g, d) in enumerate(recs):
-        out.append({'g': g, 'directed': d, 'ws': seed * 100 + i, 'schemes': ['bin', 'real', 'dyad', 'logu']})
+        out.append({'g': g, 'directed': d, 'ws': seed * 100 + i, 'schemes': ['bin', 'real', 'dyad', 'logu', 'const']})
     return out
 
 
@@ -67,6 +67,8 @@ def run(case, bct, REC):
     n = len(A)
     for sc in case['schemes']:
         W = G.weigh(A, sc, case['ws'], symmetric=not directed)
+        if sc == 'const' and W.max() > 1:
+            W = W / 6.0   # keep weights in (0,1]
         REC.tag(PROP, 'exec')
         det = {'W': W}
         # ---- directed formulas (valid for any matrix)
@@ -123,6 +125,10 @@ def run(case, bct, REC):
                 S = np.clip(S / 3.0, -1, 1)
             else:
                 S = G.weigh(A, 'signedint', case['ws'] + 1, symmetric=True) / 3.0
+            if case['ws'] % 6 == 1:
+                S = -np.abs(S)        # no positive weight at all
+            elif case['ws'] % 6 == 2:
+                S = np.abs(S)         # no negative weight at all
             Sp = S * (S > 0)
             Sn = -S * (S < 0)
             ok, res = call(REC, PROP, 'clustering_coef_wu_sign', bct.clustering_coef_wu_sign, S.copy())
